@@ -96,6 +96,41 @@ class BudgetSplit(Lemma):
         return (conv and mse > rmse ** 2, {"rmse": rmse, "remaining_bias": 0.07, "accepted": conv, "V": 0.75, "N": int(N), "bias2_plus_variance": float(mse), "rmse2": rmse ** 2})
 
 
+class StoppingTest(Lemma):
+    """criteria_giles on 1, 2, 3 and 4 levels (real body, alpha = 1): it returns a verdict (no exception) and accepts exactly
+    when the largest extrapolated correction max(m_L, m_{L-1}/2, m_{L-2}/4) over the levels that EXIST is within rmse/sqrt(2)
+    times (2^alpha - 1)."""
+    prop = "C06"
+    cases = (1, 2, 3, 4)
+    name = "property:stopping-test"
+
+    def prove(self, vc, n):
+        nm = f"{self.name}[{n} level(s)]"
+        rmse = vc.real("rmse")
+        ml = np.array(vc.reals("ml", n), dtype=object)
+        vc.assume(And(rmse > 0, *[m >= 0 for m in ml]))
+        from pyvc.sym import PyRaise
+        try:
+            conv = vc.call(CR + "criteria_giles", 1, ml, rmse)
+        except PyRaise as e:
+            vc.check(nm + f"::returns-a-verdict[{e.exc_type}]", False)
+            return
+        terms = [ml[n - 1 - k] / 2 ** k for k in range(min(3, n))]
+        rem = smax(*terms) if len(terms) > 1 else terms[0]
+        # rmse / sqrt(2): compare squares (both sides non-negative)
+        vc.check(nm + "::accepts-exactly-when-the-extrapolated-correction-is-within-tolerance", conv == (2 * rem * rem <= rmse * rmse))
+
+    def replay(self, model, clause, n):
+        from rpylib.montecarlo.multilevel.criteria import criteria_giles
+        ml = np.array([0.04, 0.02, 0.01, 0.005][:n])
+        try:
+            v = bool(criteria_giles(1.0, ml, 0.1))
+        except Exception as e:
+            return (True, {"levels": n, "ml": ml.tolist(), "exception": f"{type(e).__name__}: {e}"})
+        want = max(ml[n - 1 - k] / 2 ** k for k in range(min(3, n))) <= 0.1 / np.sqrt(2)
+        return (v != want, {"levels": n, "ml": ml.tolist(), "verdict": v, "expected": bool(want)})
+
+
 class Allocation3(Allocation):
     """three levels (slow nonlinear query): thorough tier only"""
     tier = "thorough"
@@ -106,7 +141,7 @@ class Allocation3(Allocation):
         self.name = "property:allocation-meets-the-variance-budget"
 
 
-UNITS = [Allocation(), BudgetSplit(), Allocation3()]
+UNITS = [Allocation(), BudgetSplit(), StoppingTest(), Allocation3()]
 
 
 def LATE_UNITS():
